@@ -206,7 +206,7 @@ impl Prop for C04 {
             .boxed()
     }
     fn min_nontrivial(&self, tier: Tier) -> usize {
-        tier.pick(300, 3000)
+        tier.pick(300, 2000)
     }
 
     fn run(&self, case: &Case, st: &mut CaseStats, ctx: &Ctx) -> Result<(), Violation> {
